@@ -109,6 +109,8 @@ type Frame struct {
 	phiDone  bool
 	pendingPhi []Value
 	hasPending bool
+	pendingRet Value
+	hasPendingRet bool
 }
 
 type deferred struct {
@@ -243,6 +245,22 @@ func (p *Path) branch(cond *Term) bool {
 		}
 		return d == 1
 	}
+	fT, fF := p.probe(cond)
+	switch {
+	case !fT && !fF:
+		p.end("infeasible", "both branch outcomes infeasible")
+	case !fT:
+		p.take(cond, 0)
+		return false
+	case !fF:
+		p.take(cond, 1)
+		return true
+	}
+	return p.fork(cond)
+}
+
+// probe asks the solver which outcomes of cond are feasible under the path condition.
+func (p *Path) probe(cond *Term) (bool, bool) {
 	rT, _, e1 := p.solver.CheckWith(cond, nil)
 	if rT == Unknown {
 		p.st.Inconcl = append(p.st.Inconcl, "feasibility unknown at "+p.where()+" "+e1)
@@ -257,29 +275,28 @@ func (p *Path) branch(cond *Term) bool {
 			p.st.Inconcl = append(p.st.Inconcl, "feasibility unknown at "+p.where()+" "+e2)
 		}
 	}
-	switch {
-	case rT == Unsat && rF == Unsat:
-		p.end("infeasible", "both branch outcomes infeasible")
-	case rT == Unsat:
-		p.pos++
-		p.trace = append(p.trace, 0)
-		p.assertPC(p.tc.Not(cond))
-		return false
-	case rF == Unsat:
-		p.pos++
-		p.trace = append(p.trace, 1)
+	return rT != Unsat, rF != Unsat
+}
+
+// take records a decision (forced or replayed) and asserts it.
+func (p *Path) take(cond *Term, d int) {
+	p.pos++
+	p.trace = append(p.trace, d)
+	if d == 1 {
 		p.assertPC(cond)
-		return true
+	} else {
+		p.assertPC(p.tc.Not(cond))
 	}
-	// fork
+}
+
+// fork takes the true outcome and queues the false outcome as a sibling path.
+func (p *Path) fork(cond *Term) bool {
 	sib := make([]int, len(p.trace)+1)
 	copy(sib, p.trace)
 	sib[len(p.trace)] = 0
 	p.sibs = append(p.sibs, sib)
 	p.st.Forks++
-	p.pos++
-	p.trace = append(p.trace, 1)
-	p.assertPC(cond)
+	p.take(cond, 1)
 	return true
 }
 
